@@ -462,7 +462,7 @@ func init() {
 		HarnessSpec{Name: "VerifH_gzip_grpc", StepsQ: 40000000, StepsT: 40000000, Covers: []string{"second-call", "gzip-request", "gzip-reply", "truncated-request", "pool-probe"}})
 	ext("C08", gz+"; HTTP Content-Encoding: gzip bodies and gRPC compressed frames around the limit",
 		HarnessSpec{Name: "VerifH_gzip_http", StepsQ: 40000000, StepsT: 40000000, Covers: []string{"over-limit-after-decompression", "within-limit-though-compressed-form-is-larger"}},
-		HarnessSpec{Name: "VerifH_gzip_grpc", StepsQ: 40000000, StepsT: 40000000, Covers: []string{"over-limit-after-decompression", "compressed-form-above-limit-refused"}})
+		HarnessSpec{Name: "VerifH_gzip_grpc", StepsQ: 40000000, StepsT: 40000000, Covers: []string{"over-limit-after-decompression"}})
 	ext("C03", gz+"; gzip content-encoded request bodies (valid and truncated)",
 		HarnessSpec{Name: "VerifH_gzip_http", StepsQ: 40000000, StepsT: 40000000, Covers: []string{"gzip-request", "truncated-request", "unknown-length"}})
 	ext("C04", gz+"; every response body decoded as its Content-Encoding header says is the reply / the error status, with and without Accept-Encoding: gzip, for succeeding and failing handlers",
